@@ -83,6 +83,7 @@ type VC struct {
 	Name      string // display name of the instance
 	contract  *Contract
 	bv        bool
+	mixed     bool
 	wraps     bool
 	strSMT    bool
 	script    []string
@@ -120,6 +121,7 @@ func newVC(eng *Engine, name string, c *Contract) *VC {
 		compDecl: map[string]bool{}, subst: map[string]types.Type{}, specDecl: map[string]bool{}, oblCount: map[string]int{}, uf: map[string]bool{}}
 	if c != nil {
 		vc.bv = c.Arith == "bv"
+		vc.mixed = c.Arith == "mixed"
 		vc.wraps = c.Wraps
 		vc.strSMT = c.Strings == "smt"
 	}
@@ -356,7 +358,13 @@ var specInt = types.Typ[types.UntypedInt]
 var specBool = types.Typ[types.Bool]
 
 func typeKey(t types.Type) string {
-	return types.TypeString(t, func(p *types.Package) string { return p.Name() })
+	return types.TypeString(t, func(p *types.Package) string {
+		// package name, except where two packages share it (sync vs internal/sync)
+		if strings.HasPrefix(p.Path(), "internal/") {
+			return "i" + p.Name()
+		}
+		return p.Name()
+	})
 }
 
 func mangle(s string) string {
@@ -392,7 +400,7 @@ func (vc *VC) sortOf(t types.Type) string {
 			if isUntypedInt(u) {
 				return SInt
 			}
-			if vc.bv {
+			if vc.bvType(t) {
 				ii, _ := vc.intInfo(t)
 				return bvSort(ii.w)
 			}
@@ -487,10 +495,9 @@ var nilSlice = mkSlice(intLit(0), intLit(0), intLit(0), intLit(0))
 
 // intTerm builds the literal for an integer of Go type t in the current mode.
 func (vc *VC) intConst(v *big.Int, t types.Type) Term {
-	if vc.bv && !isUntypedInt(vc.resolve(t)) {
-		if ii, ok := vc.intInfo(t); ok {
-			return bvLit(v, ii.w)
-		}
+	if vc.bvType(t) {
+		ii, _ := vc.intInfo(t)
+		return bvLit(v, ii.w)
 	}
 	return bigLit(v)
 }
@@ -579,7 +586,7 @@ func (vc *VC) typeInv(v Term, t types.Type, alloc Term) Term {
 	t = vc.resolve(t)
 	switch u := t.Underlying().(type) {
 	case *types.Basic:
-		if u.Info()&types.IsInteger != 0 && !isUntypedInt(u) && !vc.bv {
+		if u.Info()&types.IsInteger != 0 && !isUntypedInt(u) && !vc.bvType(t) {
 			ii, _ := vc.intInfo(t)
 			return and(le(bigLit(ii.lo()), v), le(v, bigLit(ii.hi())))
 		}
@@ -610,7 +617,7 @@ func (vc *VC) typeInv(v Term, t types.Type, alloc Term) Term {
 		return and(cs...)
 	case *types.Array:
 		et := u.Elem()
-		if _, isInt := vc.intInfo(et); isInt && !vc.bv && u.Len() <= 8 {
+		if _, isInt := vc.intInfo(et); isInt && !vc.bvType(et) && u.Len() <= 8 {
 			var cs []Term
 			for i := int64(0); i < u.Len(); i++ {
 				cs = append(cs, vc.typeInv(sel(v, intLit(i)), et, alloc))
